@@ -510,8 +510,13 @@ def family_phase(ctx, builds=None):
     from . import translate_schemas as ts
     if builds is None:
         builds = ctx.prop in FAMILY_BUILDS
-    fam = {"ok": False, "checked_by": "Lean kernel (`decide +kernel`) on lean/Gen/SchemaFacts/*.lean" +
-           (" and lean/Gen/SchemaBuilds/*.lean" if builds else "") + ", regenerated from the schemas the library compiled in this run"}
+    fmods = ts.family_modules(ctx.prop)
+    if not fmods and not builds:
+        return            # no theorem of this property carries a schema guard
+    guards = ts.guards_used(ctx.prop)
+    fam = {"ok": False, "checked_by": "Lean kernel (`decide +kernel`) on the generated lean/Gen/Guards/*.lean" +
+           (", lean/Gen/SchemaBuilds/*.lean" if builds else "") + ", regenerated from the schemas the library compiled in this run",
+           "guards_used_by_this_property": guards}
     ctx.family = fam
     t0 = time.time()
     with lean_lock():
@@ -523,25 +528,27 @@ def family_phase(ctx, builds=None):
             ctx.obligations += 1
             return
         fam["regenerated_files"] = changed
-        mods = ["Gen.SchemaFacts"] + (["Gen.SchemaBuilds"] if builds else []) + ts.family_modules(ctx.prop)
+        mods = fmods + (["Gen.SchemaBuilds"] if builds else [])
         ok, log, dt = build(mods)
         fam["build_s"] = round(dt, 1)
         ctx.counters["family_build_s"] = round(dt, 1)
-        parsers = ctx.prop == "C19"    # lean/Gen/Parsers.lean (imported by Family/C19.lean): the rules of `from_schema`
-        names = ts.gen_theorems(items, builds, parsers)
+        parsers = "Gen.Parsers" in import_closure("Family." + ctx.prop)
+        names = ts.gen_theorems(items, builds, parsers, guards)
         if parsers:
             fam["parser_rules"] = {it[0]: ("rulesOk" if ts.PARSERS.get(it[0]) else "not translated (clear_mark closure)")
                                    for it in items if it[2]}
         fnames = []
-        for m in ts.family_modules(ctx.prop):
+        for m in fmods:
             fnames += theorem_names(ctx.prop, os.path.join(LEAN, *m.split(".")) + ".lean")
         n_all = len(names) + len(fnames)
         if ok:
             n, d, details = audit_names(mods, names + fnames, "family_" + ctx.prop)
             # the generated per-schema instances are summarised, the hand-written corollaries listed one by one
             gen_ok = sum(1 for k in names if isinstance(details.get(k), list) and set(details[k]) <= ALLOWED_AXIOMS)
-            ctx.audit_details["Gen.Schema*"] = f"{gen_ok}/{len(names)} generated kernel-checked instances (guards" + \
-                (", construction" if builds else "") + ") of the family schemas built and audited"
+            what = (["guards " + ", ".join(guards)] if guards else []) + (["construction"] if builds else []) + \
+                (["parser rules"] if parsers else [])
+            ctx.audit_details["Gen.*"] = f"{gen_ok}/{len(names)} generated kernel-checked instances (" + "; ".join(what) + \
+                ") of the family schemas built and audited"
             for k in fnames:
                 ctx.audit_details[k] = details.get(k, "MISSING")
             ctx.obligations += n
@@ -552,13 +559,14 @@ def family_phase(ctx, builds=None):
         else:
             ctx.obligations += n_all
             bad = sorted(set(re.findall(r"error: (\S+\.lean:\d+)", log)))
-            fam["failing"] = [ts.describe_error(b) for b in bad] or ["lake build " + " ".join(mods)]
+            fam["failing"] = sorted(set(ts.describe_error(b) for b in bad)) or ["lake build " + " ".join(mods)]
             fam["log"] = log
-            ctx.audit_details["Gen.Schema*"] = "build failed: " + "; ".join(fam["failing"])[:600]
-        fam["schemas"] = ts.guard_table(items)
+            ctx.audit_details["Gen.*"] = "build failed: " + "; ".join(fam["failing"])[:600]
+        fam["schemas"] = ts.guard_table(items, guards)
         fam["closed_corollaries"] = fnames
         if builds:
-            fam["construction"] = {it[0]: "buildSchema <spec> = .ok <compiled>" for it in items}
+            fam["construction"] = {it[0]: "buildSchema <spec> = .ok <compiled>; compileSchema <spec> <automata> = .ok <compiled>"
+                                   for it in items}
         fam["wall_s"] = round(time.time() - t0, 1)
 
 
